@@ -5,7 +5,7 @@ import json, os, re, subprocess, sys, time
 from concurrent.futures import ThreadPoolExecutor
 from . import tlc
 
-_VERDICT = re.compile(r'<<"VERDICT", (\d+), ("?[^,]*"?), "([^"]*)", (\d+)>>')
+_VERDICT = re.compile(r'<< ?"VERDICT", (\d+), ("[^"]*"|-?\d+), "([^"]*)", (\d+) ?>>')
 
 
 def validate(traces, module, workdir, constants=(), procs=16, timeout=900, spec='TraceSpec',
@@ -24,7 +24,7 @@ def validate(traces, module, workdir, constants=(), procs=16, timeout=900, spec=
             json.dump([{'id': t['id'], 'ev': t['ev']} for t in parts[i]], f)
         res = tlc.run(module, cfg, workdir, workers=1, timeout=timeout, env={'TRACE_FILE': tf},
                       outname='%s.%d.out' % (tag, i), heap='3g')
-        txt = open(res['out'], errors='replace').read()
+        txt = re.sub(r'\s+', ' ', open(res['out'], errors='replace').read())      # PrintT wraps long tuples
         v = {}
         for m in _VERDICT.finditer(txt):
             v[json.loads(m.group(2)) if m.group(2).startswith('"') else int(m.group(2))] = (m.group(3), int(m.group(4)))
